@@ -40,6 +40,7 @@ BASES = [
     'include("d0.conf")\ninclude("d1.conf")\nsec q { include("nosuch.conf") }\n',  # one level too deep, exactly the limit, missing file
     'i = 2\ninclude("~nosuchuser_verif/x.conf")\n',                                 # a tilde form that names no account
     'include("~/nosuch_verif_file.conf")\n',
+    'i = 3\ninclude("/dev/null")\nsec n { include("/dev/null") x = 2 }\ni = 4\n',
     'sec "%s" { x = 1 }\nsec "%s" { }\nsec "%s" { x = 2 }\ns = "%s"\n' % ('T' * 300, 'U' * 5000, 'T' * 300, 'v' * 9000),      # titles and values beyond any plausible fixed limit
 ]
 
